@@ -22,6 +22,11 @@ CHECKS = {
    "The real coordinator.PointsWriter.WritePointsPrivileged is driven through every combination of replication 1..4, coordinator position (each owner or a non-owner), consistency level and per-owner outcome (stored / retryable failure with handoff accepted or refused / permanent rejection / queue non-empty with enqueue accepted or refused / no answer), with answer arrival orders enforced by gates inside the doubles (n<=3 complete, n=4 one seeded order per tuple in quick and complete in thorough). The returned error class and, after all owner goroutines drained, the exact number and payload of hinted-handoff offers per owner are judged by a pure function of the case.",
    "ShardWriter/HintedHandoff/TSDBStore/MetaClient are doubles (durability of an accepted enqueue is C04's concern); the integrated multi-node variant is not part of this check; arrival order of non-final successes is near-exact (scheduler yields), verdicts do not depend on it.",
    "DESIGN.md section 3 C03"),
+ "C04": ("fault_enumeration",
+   "FIFO/at-least-once model of the hinted-handoff queue over sequential histories, NodeProcessor split/delivery oracle, concurrent appenders racing Close (multiset + order oracles, race detector), crash images at every hh.* hook with every torn prefix of the pending write",
+   "The real queue (through a verif-tagged handle), NodeProcessor and hh.Service are driven by sequential histories (append around the segment limit, current, advance, size change, purge by age with controlled mtimes, close/reopen), by batches that force bisection, by 1-32 concurrent appenders with one consumer and a Close at a seeded point, and by crash images copied inside the flush/advance/trim hooks plus every torn prefix of the pending write; oracles: FIFO model incl. Empty() at quiescent points, delivered concatenation equals the original batch, accepted = delivered + still queued (duplicates only for the block in flight), per-appender and real-time order, reopened content = suffix of the acceptance sequence with every returned block.",
+   "Crash model = process kill + torn prefix of the pending write (a removed fsync is invisible); crash histories are one level deep; zero-length blocks excluded.",
+   "DESIGN.md section 3 C04"),
  "C05": ("fault_enumeration",
    "in-process 3- and 4-node clusters; every fan-out statement kind re-run from every coordinator under every single fault of another node (stopped, shard disabled, connection refused, reply delayed, stream cut at seeded byte offsets) and double faults; oracle: reference answer or error",
    "Databases with replication 1/2/3 (and 2 on four nodes) hold the same data; reference answers come from the fault-free cluster; each statement is re-run from each coordinator with a fault injected on another node through the coordinator dial hook (refuse, delay past the reader timeout, cut the response stream after k bytes), by disabling a shard on one owner (error reply), by stopping a node, and with double faults that leave some shards without a healthy owner. The answer must be the reference answer or an error, never other rows; when every shard keeps a healthy owner and the fault is visible at request time the answer must be the reference.",
@@ -62,6 +67,16 @@ CHECKS = {
    "Runs the real block encoders/decoders (iterator and batch families, cross-wise) on generated sequences aimed at scheme boundaries and compares bit for bit; writes real WAL segments and reads every byte-offset truncation through WALSegmentReader and CacheLoader against the 'complete frames before the cut' oracle. Held on the sampled inputs only; the input space is unbounded.",
    "Trusts snappy/simple8b dependencies; timestamps within a block sorted (unsorted only via the raw scheme); sampled, not exhaustive.",
    "DESIGN.md section 3 C13"),
+ "C15": ("fault_enumeration",
+   "hostile byte streams against a real coordinator.Service in a worker child (liveness probe, allocation bound, crash classification) + round-trip equality of every message type and of streamed points, under checkptr",
+   "A worker child hosts the real coordinator.Service behind the real tcp.Mux with a real store; the parent logs every stream before sending it: header byte x message type x length prefix (negative, 0, off-by-one, 2^31, MaxMessageSize +-1, 2^62) x payload class (empty, truncated, valid, valid envelope with invalid contents, random), several frames per connection, abrupt close at every position; after each stream a liveness probe must be answered and the allocation delta must stay under MaxMessageSize + 16 MiB; a worker death is classified by the panicking function. Every request/response type and point streams of all types (tags, aux, nil markers, stats frames) must survive encode -> decode.",
+   "Meta client / hinted handoff / enclosing server are stubs; sampled random streams; 1 GiB frames only in thorough.",
+   "DESIGN.md section 3 C15"),
+ "C16": ("exploration",
+   "independent privilege model vs. what reaches a recording executor / points writer behind the real httpd.Handler + meta authorizers; credential-cache histories incl. concurrent password changes, under the race detector",
+   "The real httpd.Handler (auth on) with the real meta.QueryAuthorizer/WriteAuthorizer and a real meta service + two meta clients; every statement type the parser produces x 32 users (admin flag x grants on two databases) x credential carriers (basic, query parameters, Token, bearer valid/expired/no-exp/wrong secret/unknown user), multi-statement requests, writes on all write endpoints, the zero-users state; oracle: executed => credentials valid and every privilege the statement's RequiredPrivileges() names is granted. Histories of create/drop/re-create user, set password, grant/revoke with authentications populating the cache on one and on a second client: an authentication invoked after the change returned must fail; concurrent variant checks that nothing stale is re-cached.",
+   "'needs' is defined by influxql's RequiredPrivileges (dependency); flux, prometheus read and debug endpoints not exercised.",
+   "DESIGN.md section 3 C16"),
  "C17": ("exploration",
    "exact-boundary predicate oracle + real retention.Service against a real meta service with gated passes, injected metadata errors and a recording store; clock-bracketed judgement; K-pass bounded progress",
    "ExpiredShardGroups/DeletedShardGroups are evaluated at End+D-1ns / End+D / End+D+1ns and decoy instants over generated policies and group sets; the real retention.Service runs against a real meta service + client and a recording TSDBStore (local shards of live, expired, deleted, pruned groups and ids unknown to the metadata), every DeleteShard/DeleteShardGroup call is judged with clock brackets, metadata errors are injected between passes counted at the service's own calls, and within K=3 passes after faults stop every expired group must be marked deleted and every local shard of a deleted group removed; write-time cut-off cross-checked through MapShards.",
